@@ -11,7 +11,11 @@ GitBranch.set_parent(url) / get_parent() on a real git control directory:
   branch_ref       ref_to_branch_name(branch_name_to_ref(n)) == n   (n not starting with 'refs/')
                    and branch_name_to_ref(ref_to_branch_name(r)) == r for r = HEAD | refs/heads/<utf8>
   tag_ref          ref_to_tag_name(tag_name_to_ref(n)) == n and back
-  url              bzr_url_to_git_url(git_url_to_bzr_url(u, branch|ref)) == (L, branch, ref) with
+  ref_name         starting from the REF (bytes, leaf from a byte grammar with the escape characters and byte
+                   sequences that are not UTF-8): ref_to_{branch,tag}_name(r) either refuses r with ValueError
+                   (r has no name: outside the domain) or returns a str that *_name_to_ref maps back to r
+  url              bzr_url_to_git_url(git_url_to_bzr_url(u, branch|ref)) == (L, branch, ref) (any bytes ref is
+                   accepted; one that has no branch name must come back denoting the same ref) with
                    L = git_url_to_bzr_url(u); branch/ref compared after ONE unquote (the converter hands
                    back the segment parameter still quoted); L follows the documented scheme table
   parent           set_parent(url) ; fresh open ; get_parent() denotes the same repository location and
@@ -35,16 +39,22 @@ BUDGET_S = {"quick": 45, "thorough": 700}
 MIN_EVALS = {"quick": 20000, "thorough": 600000}
 FLOORS = {
     "quick": {"file_id_escape": 5000, "file_id_path": 3000, "revid": 2000, "branch_ref": 2500, "tag_ref": 2500,
+              "ref_name": 4000, "ref_name_named": 1500, "ref_name_refused": 500, "url_with_unnameable_head_ref": 100,
               "url": 4000, "url_with_ref": 800, "url_with_branch": 800, "parent": 600, "parent_with_target": 300},
     "thorough": {"file_id_escape": 100000, "file_id_path": 80000, "revid": 60000, "branch_ref": 80000, "tag_ref": 80000,
+                 "ref_name": 100000, "ref_name_named": 40000, "ref_name_refused": 10000,
+                 "url_with_unnameable_head_ref": 2000,
                  "url": 100000, "url_with_ref": 20000, "url_with_branch": 20000, "parent": 10000, "parent_with_target": 5000},
 }
 RUST = ["breezy._git_rs"]
 EXHAUSTIVE = {"quick": False, "thorough": False}
 ASSUMPTIONS = [
     "branch names starting with 'refs/' are outside the inverse-pair domain (documented pass-through of branch_name_to_ref)",
-    "refs under refs/heads/ that are not valid UTF-8 are outside the domain (branch names are str); non-UTF-8 bytes are "
-    "exercised in refs outside refs/heads/",
+    "a ref that ref_to_branch_name / ref_to_tag_name refuses with ValueError (not under the prefix, or leaf not "
+    "valid UTF-8: branch and tag names are str) has no name and is outside the ref->name->ref pair; every ref that "
+    "IS given a name must map back to itself.  Such a ref is still a legal ref= argument / parent target and must "
+    "come back denoting the same ref",
+    "refs refs/heads/refs/... are outside the ref->name->ref pair (their name starts with 'refs/', see above)",
     "URL equality for the location part is judged against the documented scheme table (known git schemes unchanged, "
     "ssh -> git+ssh, scp-style -> git+ssh://[user@]host/path, anything else unchanged)",
     "URLs do not contain ',' in their path (that is breezy's own segment-parameter syntax)",
@@ -132,13 +142,47 @@ def gen_url(rng):
     return kind, u, u
 
 
+LEAF_PIECES = (b"a", b"feature", b"x", b"_", b"%", b"%2F", b"%FF", b",", b"=", b" ", b"/", b"/", b"-", b".", b"@", b"+",
+               b"HEAD", b"refs", b"heads", b"tags", b"1.0", "\u00e9".encode(), "\u65e5\u672c".encode(), "\u00df".encode(),
+               "\U0001f600".encode())
+# byte sequences that are not UTF-8: lone lead / continuation bytes, latin-1, overlong, CESU surrogate, > U+10FFFF
+BAD_PIECES = (b"\xff", b"\xfe", b"\xe9", b"caf\xe9", b"\xc3", b"\x80", b"\xc0\xaf", b"\xed\xb3\xbf", b"\xf5\x80\x80\x80",
+              b"\xe6\x97")
+
+
+def _is_utf8(b):
+    try:
+        b.decode("utf-8")
+        return True
+    except UnicodeDecodeError:
+        return False
+
+
+def gen_leaf(rng, bad):
+    """A ref leaf (bytes, no leading/trailing/double '/'); bad => guaranteed not to be valid UTF-8."""
+    while True:
+        n = rng.choice((1, 1, 2, 3, 4))
+        parts = [rng.choice(LEAF_PIECES) for _ in range(n)]
+        if bad:
+            parts.insert(rng.randint(0, len(parts)), rng.choice(BAD_PIECES))
+            if rng.random() < 0.3:
+                parts = [p for p in parts if p in BAD_PIECES]
+        leaf = b"".join(parts).strip(b"/")
+        while b"//" in leaf:
+            leaf = leaf.replace(b"//", b"/")
+        if leaf and (not bad or not _is_utf8(leaf)):
+            return leaf
+
+
 def gen_ref(rng):
     """A ref (bytes) for the ref= parameter, and its class."""
-    k = rng.choice(("tag", "tag", "head", "remote", "other", "nonutf8", "HEAD", "pull"))
+    k = rng.choice(("tag", "tag", "head", "remote", "other", "nonutf8", "nonutf8-head", "HEAD", "pull"))
     if k == "HEAD":
         return k, b"HEAD"
     if k == "nonutf8":
-        return k, b"refs/tags/" + rng.choice((b"\xff", b"caf\xe9", b"v\xfe/1"))
+        return k, rng.choice((b"refs/tags/", b"refs/tags/", b"refs/notes/", b"refs/remotes/origin/")) + gen_leaf(rng, True)
+    if k == "nonutf8-head":
+        return k, b"refs/heads/" + gen_leaf(rng, True)
     name = gen_name(rng).strip("/") or "x"
     pre = {"tag": "refs/tags/", "head": "refs/heads/", "remote": "refs/remotes/origin/", "other": "refs/notes/",
            "pull": "refs/pull/"}[k]
@@ -253,6 +297,59 @@ def m_tag_name(ctx, n):
     ctx.note(("tag", n), nontrivial=(any(c in n for c in "/%,= ") or not n.isascii() or n.startswith("refs")))
 
 
+def m_ref_name(ctx, kind, ref):
+    """Starting from the ref: a ref either has no name (ValueError) or its name maps back to it."""
+    from breezy.git import refs as R
+
+    to_name, to_ref = ((R.ref_to_branch_name, R.branch_name_to_ref) if kind == "branch"
+                       else (R.ref_to_tag_name, R.tag_name_to_ref))
+    prefix = b"refs/heads/" if kind == "branch" else b"refs/tags/"
+    ctx.count("ref_name")
+    utf8 = _is_utf8(ref)
+    d = {"ref": repr(ref), "kind": kind, "utf8": utf8}
+    sig = ("ref", kind, repr(ref))
+    try:
+        name = to_name(ref)
+    except ValueError as e:
+        # no name for this ref.  Every UTF-8 ref under the prefix has one.
+        ctx.count("ref_name_refused")
+        ctx.hist("ref_name:%s:refused:%s:%s" % (kind, "utf8" if utf8 else "non-utf8", type(e).__name__))
+        ctx.check(not (utf8 and (ref.startswith(prefix) or (kind == "branch" and ref == b"HEAD"))),
+                  "refs:utf8-ref-refused:" + kind, "%s(%r) raised %r" % (to_name.__name__, ref, e), d)
+        ctx.note(sig, nontrivial=not utf8)
+        return
+    ctx.count("ref_name_named")
+    ctx.hist("ref_name:%s:named:%s" % (kind, "utf8" if utf8 else "non-utf8"))
+    if not ctx.check(isinstance(name, str), "refs:name-of-ref-not-str:" + kind, repr(name), d):
+        return
+    d["name"] = ascii(name)
+    if kind == "branch" and name.startswith("refs/"):
+        ctx.hist("branch_ref:out-of-domain:refs/-prefix")
+        return
+    try:
+        back = to_ref(name)
+    except Exception as e:
+        ctx.fail("refs:name-of-ref-cannot-map-back:" + kind,
+                 "%s(%r) = %a but %s raises %r" % (to_name.__name__, ref, name, to_ref.__name__, e), d)
+        return
+    ctx.check(back == ref, "refs:ref-%s-ref-not-inverse" % kind, "%r -> %a -> %r" % (ref, name, back), d)
+    ctx.note(sig, nontrivial=(not utf8 or not ref.isascii() or any(c in ref[len(prefix):] for c in b"/%,= ")))
+
+
+def gen_any_ref(rng, kind):
+    prefix = b"refs/heads/" if kind == "branch" else b"refs/tags/"
+    x = rng.random()
+    if x < 0.45:
+        return prefix + gen_leaf(rng, False)
+    if x < 0.9:
+        return prefix + gen_leaf(rng, True)
+    if x < 0.93 and kind == "branch":
+        return b"HEAD"
+    # not under this converter's prefix: documented ValueError
+    return rng.choice((b"refs/notes/", b"refs/remotes/origin/", b"refs/tags/" if kind == "branch" else b"refs/heads/",
+                       b"refs/head/", b"")) + gen_leaf(rng, rng.random() < 0.5)
+
+
 def effective_ref(branch_q, ref_q):
     """Target ref denoted by (still quoted) branch / ref segment parameter values."""
     from breezy import urlutils
@@ -270,7 +367,7 @@ def m_url(ctx, rng):
 
     kind, u, exp = gen_url(rng)
     mode = rng.choice(("none", "branch", "branch", "ref", "ref"))
-    kw, want_branch, want_ref = {}, None, None
+    kw, want_branch, want_ref, want_eff = {}, None, None, None
     if mode == "branch":
         b = gen_name(rng)
         if b.startswith("refs/"):
@@ -282,8 +379,10 @@ def m_url(ctx, rng):
         kw["ref"] = r
         if r == b"HEAD":
             pass
-        elif r.startswith(b"refs/heads/"):
+        elif r.startswith(b"refs/heads/") and _is_utf8(r):
             want_branch = r[len(b"refs/heads/"):].decode("utf-8")
+        elif r.startswith(b"refs/heads/"):
+            want_eff = r        # a head ref without a branch name: whichever parameter carries it, it must denote r
         else:
             want_ref = r
         ctx.hist("url:ref-class:" + rk)
@@ -299,7 +398,15 @@ def m_url(ctx, rng):
                      "git_url_to_bzr_url(%r) = %r, documented %r" % (u, L0, exp), d):
         pass
     ctx.check(git_url_to_bzr_url(L0) == L0, "urls:location:not-stable", "converting %r again gives %r" % (L0, git_url_to_bzr_url(L0)), d)
-    L = git_url_to_bzr_url(u, **kw)
+    sig = ("url", u, sorted((k, repr(v)) for k, v in kw.items()))
+    try:
+        L = git_url_to_bzr_url(u, **kw)
+    except Exception as e:
+        # only documented refusal: branch and ref given together (never generated)
+        ctx.fail("urls:to-bzr-url-raises:%s:%s" % (mode if want_eff is None else "ref-without-branch-name", type(e).__name__),
+                 "git_url_to_bzr_url(%r, %s) raised %r" % (u, ", ".join("%s=%r" % kv for kv in kw.items()), e), d)
+        ctx.note(sig)
+        return
     d["bzr_url"] = L
     back = bzr_url_to_git_url(L)
     d["back"] = repr(back)
@@ -331,9 +438,25 @@ def m_url(ctx, rng):
             else:
                 ctx.check(urlutils.unquote_to_bytes(rq) == want_ref, "urls:ref-differs", "%r vs %r" % (rq, want_ref), d)
             ctx.check(bq is None, "urls:spurious-branch", repr(back), d)
+        elif want_eff is not None:
+            ctx.count("url_with_ref")
+            ctx.count("url_with_unnameable_head_ref")
+            if bq is None and rq is None and local and "," not in L:
+                ctx.hist("url:documented-unchanged:ref-not-attached-to-non-git-location")
+            elif bq is None and rq is None:
+                ctx.fail("urls:ref-dropped:%s" % ("ref-parameter-not-read-back" if ",ref=" in L else "not-written"),
+                         "ref %r not in %r (bzr url %r)" % (want_eff, back, L), d)
+            else:
+                try:
+                    eff = effective_ref(bq, rq)
+                except Exception as e:
+                    eff = "undecodable: %r" % (e,)
+                ctx.check(eff == want_eff, "urls:ref-differs:ref-without-branch-name",
+                          "%r denotes %r, wanted %r" % (back, eff, want_eff), d)
+                ctx.check(bq is None or rq is None, "urls:both-parameters", repr(back), d)
         else:
             ctx.check(bq is None and rq is None, "urls:spurious-parameter", repr(back), d)
-    ctx.note(("url", u, sorted((k, repr(v)) for k, v in kw.items())), nontrivial=(mode != "none" or exp != u),
+    ctx.note(sig, nontrivial=(mode != "none" or exp != u),
              sample=(d if rng.random() < 0.001 else None))
 
 
@@ -409,12 +532,21 @@ def m_parent(ctx, rng, root, sibling_base):
     # stage B: read back through fresh objects
     br2 = ControlDir.open(root)
     br2 = br2.open_branch(name=bname) if bname else br2.open_branch()
-    got = br2.get_parent()
+    try:
+        got = br2.get_parent()
+    except Exception as e:
+        ctx.fail("parent:get:raises:%s:%s" % (mode, type(e).__name__),
+                 "set_parent(%r) stored merge=%r; get_parent() raised %r" % (url, merge, e), d)
+        ctx.note(("parent", url, bname))
+        return
     d["get_parent"] = got
     if not ctx.check(got is not None, "parent:get:none", "get_parent() is None after set_parent(%r)" % url, d):
         return
     gbase, gparams = urlutils.split_segment_parameters(got)
-    got_ref = effective_ref(gparams.get("branch"), gparams.get("ref"))
+    try:
+        got_ref = effective_ref(gparams.get("branch"), gparams.get("ref"))
+    except ValueError as e:
+        got_ref = "undecodable: %r" % (e,)
     same_base = gbase.rstrip("/") == base.rstrip("/")
     if not same_base and fam == "local":
         try:
@@ -514,6 +646,9 @@ def case(ctx):
         m_tag_name(ctx, n)
     m_branch_name(ctx, "")
     m_branch_name(ctx, "HEAD")
+    for _ in range(N):
+        for kind in ("branch", "tag"):
+            m_ref_name(ctx, kind, gen_any_ref(rng, kind))
     for _ in range(N * 2):
         m_url(ctx, rng)
     # end to end
